@@ -213,11 +213,9 @@ def greedyStep (h : Header) : M ρ DErr (Res × Bool) := do
   if h.vendorId ≠ 0 then
     skip h.payloadLength.toNat
     pure (.error (.unsupportedVendorId h.vendorId), true)
-  else if h.isHidden then
-    -- `reader.bytes(n).map(to_owned).unwrap_or_default()`
-    fun r => match Rdr.bytes r h.payloadLength.toNat with
-      | some (b, r') => .ok (.ok (.hidden h.attributeType b), true) r'
-      | none => .ok (.ok (.hidden h.attributeType []), true) r
+  else if h.isHidden then do
+    let b ← readBytesOrEmpty h.payloadLength.toNat
+    pure (.ok (.hidden h.attributeType b), true)
   else do
     let res ← inSub h.payloadLength.toNat (decodeAvp h.attributeType)
     pure (res, true)
